@@ -44,7 +44,7 @@ def generate(r, tier):
         prog = kgen.gen_menu_program(r)  # nested menus: menu visibility is aggregated bottom-up
     elif k < 0.4:
         # small programs dense in reverse dependencies and bare helper options (a long-running server is where stale caches show)
-        prog = kgen.gen_program(r, lo=3, hi=8, feats=["set", "setdefault", "select", "imply", "choice", "menu"], p_rev=3.0, p_bare=0.3)
+        prog = kgen.gen_program(r, lo=3, hi=8, feats=["set", "setdefault", "select", "imply", "choice", "menu"], p_rev=3.0, p_bare=0.5)
     else:
         prog = kgen.gen_program(r, hi=18 if big else 11, p_nodefault=0.15 if k < 0.6 else 0.0)
     sc = {"prog": prog, "parser": kgen.pick_parser(r, prog, 0.04), "hash_salt": r.getrandbits(32), "policy": r.choice([None, None, "kconfig"]),
